@@ -46,8 +46,17 @@ structure PBar where
   bestSince : List Nat := []          -- LVL1 only: `best_since_iter_list`
 deriving Repr, Inhabited
 
-/-- `_new2best`: strict `>` on the running best -/
+/-- the acceptance test of `_new2best` (after fix 733723c): strictly greater, or equal to the initial best while no
+    position has been recorded yet (so an all `-inf` search still reports a `best_para`; nan never passes) -/
+def accepts (scoreBest : F) (posBest : Option Pos) (score : F) : Bool :=
+  F.gt score scoreBest || (posBest.isNone && F.beq score scoreBest)
+
+/-- `_new2best` -/
 def PBar.new2best (p : PBar) (score : F) (pos : Pos) : PBar :=
+  if accepts p.scoreBest p.posBest score then { p with scoreBest := score, posBest := some pos } else p
+
+/-- the pinned-commit form: strict `>` only -/
+def PBar.new2bestLegacy (p : PBar) (score : F) (pos : Pos) : PBar :=
   if F.gt score p.scoreBest then { p with scoreBest := score, posBest := some pos } else p
 
 /-- `ProgressBarLVL0.update` -/
